@@ -326,8 +326,27 @@ fn write_fault_chains(seed: u64, n: usize, sink: &mut Sink) {
         })();
         sink.push(Case {
             tags: vec!["mode=write-fault".into(), format!("body={}", tag), format!("fault-hop={}", fi), format!("fault-kind={}", kind), format!("status={}", status)],
-            op: format!("nop write-fault {} {} {}", fi, after, kind),
-            impl_line: "nop".into(),
+            // (a multipart body reaches the model through what was seen on the wire — its boundary is random —,
+            // which a broken connection does not show: those rows are judged by the oracle alone)
+            op: if tag == "multipart" { format!("nop write-fault {} {} {}", fi, after, kind) } else { format!("sendf {} {} {} {}", fi, after, kind, case.op_line(&obs).strip_prefix("send ").unwrap_or("?")) },
+            impl_line: if tag == "multipart" { "nop".into() } else {
+                // the connection that broke shows how many bytes it took, not which (the order of the header
+                // lines on the wire is not part of the model)
+                let line = obs.line();
+                let shown = obs.hops.len() == fi + 1 && obs.hops[fi].written.len() == after && matches!(obs.fin, FinalObs::Err(_));
+                match (shown, line.strip_prefix("hops="), line.find(" final=")) {
+                    (true, Some(_), Some(p)) => {
+                        let mut hs: Vec<String> = line["hops=".len()..p].split('|').map(|h| h.to_string()).collect();
+                        let mut f: Vec<String> = hs[fi].split(':').map(|x| x.to_string()).collect();
+                        if f.len() >= 5 {
+                            f[3] = format!("cut{}", after);
+                        }
+                        hs[fi] = f.join(":");
+                        format!("hops={}{}", hs.join("|"), &line[p..])
+                    }
+                    _ => line,
+                }
+            },
             oracle: o,
         });
     }
